@@ -283,7 +283,9 @@ def run(case):
             for d1 in devs[::3]:
                 for d2 in devs[::4]:
                     plans.append({p1: d1, p2: d2})
+    from .. import runner
     for plan in plans:
+        runner.kick()  # the watchdog bounds one plan (the thorough tier runs thousands of plans in a case)
         obs = _execute(case, plan)
         tags["plans"] += 1
         ctx = f"{tgt} plan={ {p: (d[0], 'ran' if d[1] else 'not-run', d[2]) for p, d in plan.items()} }"
